@@ -1030,29 +1030,38 @@ def msg_obs(msg):
     return ['other', action, spec or '', '']
 
 
-def run_case(nodespec, steps):
-    """-> dict(node=<json>, steps=[{req, drv, obs}], oracle=<json>, errors=[...]) ; runs the REAL code"""
-    from frappy.params import Parameter, Command
-    node, box, classes = build_node(nodespec)
-    if node.errors or set(node.secnode.modules) != {ms['name'] for ms in nodespec['modules']}:
-        return {'errors': list(node.errors) or ['module missing']}
-    conn = node.connect()
-    node.request(conn, 'activate', None, None)
-    conn.msgs.clear()
-    nj = node_json(node, nodespec, classes)
-    orc = Oracle()
-    out_steps = []
-    for n, st in enumerate(steps):
+class Session:
+    """one generated node under test: the real objects, the oracle tables, the recorded steps.  `before` / `after`
+    bracket ONE request: everything the model may ask the datatypes about the state before the request is computed in
+    `before`, the observation is taken in `after` (sequentially: around node.request; with several connections: inside
+    the handler, i.e. inside the section in which the dispatcher serves the request)"""
+
+    def __init__(self, nodespec):
+        self.nodespec = nodespec
+        self.node, self.box, self.classes = build_node(nodespec)
+        node = self.node
+        self.errors = []
+        if node.errors or set(node.secnode.modules) != {ms['name'] for ms in nodespec['modules']}:
+            self.errors = list(node.errors) or ['module missing']
+            return
+        self.conn = node.connect()            # receives the updates (activated)
+        node.request(self.conn, 'activate', None, None)
+        self.conn.msgs.clear()
+        self.nj = node_json(node, nodespec, self.classes)
+        self.orc = Oracle()
+        self.out_steps = []
+
+    def before(self, n, st):
+        from frappy.params import Parameter
+        node, box, orc = self.node, self.box, self.orc
         box.log = []
         box.returned = []
         box.script = {'kind': st['script'], 'n': n}
         box.rng = random.Random(st['seed'])
-        orc.step = n
+        orc.step = len(self.out_steps)
         before = cache_rows(node)
+        self.conn.msgs.clear()
         kind, spec, data = st['kind'], st['spec'], st['data']
-        if kind == 'assign':
-            out_steps.append(run_assign(node, orc, conn, st, before))
-            continue
         # python objects needed for the oracle are those of BEFORE the request
         modname, accname = split_spec(spec)
         pre = []
@@ -1070,9 +1079,14 @@ def run_case(nodespec, steps):
             mycls, = type(modobj).__bases__
             if isinstance(aobj, Parameter) and kind in ('change', 'read'):
                 param_oracle(orc, box, modobj, mycls, attr, aobj, data, kind, [])
-        reply = node.request(conn, kind, spec, data)
+        return {'before': before, 'pre': pre}
+
+    def after(self, n, st, ctx, reply):
+        from frappy.params import Parameter, Command
+        node, box, orc = self.node, self.box, self.orc
+        kind, spec, data = st['kind'], st['spec'], st['data']
         raws = list(box.returned)
-        for modobj, attr, aobj, cur, lims in pre:
+        for modobj, attr, aobj, cur, lims in ctx['pre']:
             mycls, = type(modobj).__bases__
             if isinstance(aobj, Parameter) and kind in ('change', 'read'):
                 dt = aobj.datatype
@@ -1099,14 +1113,35 @@ def run_case(nodespec, steps):
         else:
             drv = 'none'
         obs = {'reply': reply_obs(reply), 'calls': [list(c) for c in box.log],
-               'emits': [msg_obs(m) for m in conn.msgs], 'before': before, 'after': cache_rows(node)}
-        conn.msgs.clear()
+               'emits': [msg_obs(m) for m in self.conn.msgs], 'before': ctx['before'], 'after': cache_rows(node)}
+        self.conn.msgs.clear()
         wire_data = canonj(data) if kind == 'change' else (None if data is None else canonj(data)) if kind == 'do' else bool(data)
-        out_steps.append({'req': [kind, spec if spec is not None else None, wire_data], 'drv': drv, 'obs': obs,
-                          'pyclass': reply[2][1] if reply and reply[0].startswith('error_') else None})
-    return {'node': nj, 'steps': out_steps, 'oracle': orc.json(), 'errors': [],
-            'dtrees': [[m, a, t] for (m, a), t in orc.trees.items() if t is not None], 'acceptck': orc.ck,
-            'accept_outside_model': orc.count_outside, 'accept_kinds': dict(orc.count_kind)}
+        self.out_steps.append({'req': [kind, spec if spec is not None else None, wire_data], 'drv': drv, 'obs': obs,
+                               'pyclass': reply[2][1] if reply and reply[0].startswith('error_') else None})
+
+    def record(self):
+        orc = self.orc
+        return {'node': self.nj, 'steps': self.out_steps, 'oracle': orc.json(), 'errors': [],
+                'dtrees': [[m, a, t] for (m, a), t in orc.trees.items() if t is not None], 'acceptck': orc.ck,
+                'accept_outside_model': orc.count_outside, 'accept_kinds': dict(orc.count_kind)}
+
+
+def run_case(nodespec, steps):
+    """-> dict(node=<json>, steps=[{req, drv, obs}], oracle=<json>, errors=[...]) ; runs the REAL code"""
+    sess = Session(nodespec)
+    if sess.errors:
+        return {'errors': sess.errors}
+    for n, st in enumerate(steps):
+        if st['kind'] == 'assign':
+            sess.box.log = []
+            sess.box.returned = []
+            sess.orc.step = n
+            sess.out_steps.append(run_assign(sess.node, sess.orc, sess.conn, st, cache_rows(sess.node)))
+            continue
+        ctx = sess.before(n, st)
+        reply = sess.node.request(sess.conn, st['kind'], st['spec'], st['data'])
+        sess.after(n, st, ctx, reply)
+    return sess.record()
 
 
 BAD_RAW = ['a much too long string, longer than any limit', float('nan'), float('inf'), -1e300, 10 ** 40, None, [1, 2, 3, 4, 5, 6, 7, 8, 9],
@@ -1570,6 +1605,137 @@ def run_merging(ctx, res, big):
 
 
 # ----------------------------------------------------------------------------------------
+# concurrent part 3: a generated history served to SEVERAL connections at once
+# The sequential model (one request = one atomic step, theorem `histories`) speaks about a node with several clients only
+# if the dispatcher handles the requests one at a time.  Here the requests of a generated history are dealt out to 2-3
+# threads (one connection each) and run under the deterministic scheduler; oracle tables and observations are taken
+# inside the handler (the section in which the dispatcher serves the request).  The Lean side checks that the handler
+# sections do not overlap (`OneAtATime`), runs the sequential model on the requests in the order they were served, and
+# judges every exchange as in the sequential part.
+# ----------------------------------------------------------------------------------------
+def shared_run(case, nthreads, policy):
+    import frappy.modulebase
+    import frappy.protocol.dispatcher
+    from vlib.node import error_class
+    from vlib.sched import Scheduler
+    s = Scheduler(policy=policy, max_steps=60000)
+    steps = [st for st in case['steps'] if st['kind'] != 'assign']
+    events = []
+    current = {}
+
+    def tid():
+        me = s.me()
+        return int(me.name[1:]) if me is not None else 0
+
+    with s.patched(frappy.modulebase, threading=s.threading, time=s.time, mkthread=s.mkthread), \
+            s.patched(frappy.protocol.dispatcher, threading=s.threading, currenttime=s.time):
+        sess = Session(case['nodespec'])
+        if sess.errors:
+            return s, {'errors': sess.errors}
+        disp = sess.node.dispatcher
+        for action in ('change', 'do', 'read'):
+            def handler(conn, specifier, data, action=action, orig=getattr(disp, 'handle_' + action)):
+                t = tid()
+                n, st = current[t]
+                events.append(['begin', t])
+                ctx = sess.before(n, st)
+                try:
+                    reply = orig(conn, specifier, data)
+                except Exception as e:
+                    sess.after(n, st, ctx, ('error_' + action, specifier, [error_class(e), type(e).__name__, {}]))
+                    events.append(['finish', t])
+                    raise
+                sess.after(n, st, ctx, reply)
+                events.append(['finish', t])
+                return reply
+            setattr(disp, 'handle_' + action, handler)
+        conns = [sess.node.connect() for _ in range(nthreads)]
+
+        def worker(i):
+            for n, st in enumerate(steps):
+                if n % nthreads != i:
+                    continue
+                current[i + 1] = (n, st)
+                sess.node.request(conns[i], st['kind'], st['spec'], st['data'])
+            s.yield_(('end',))
+        for i in range(nthreads):
+            s.spawn('t%d' % (i + 1), worker, (i,))
+        result = s.run(wall_timeout=60)
+        rec = sess.record()
+    import logging
+    registry = logging.Logger.manager.loggerDict
+    for k in [k for k in registry if k == sess.node.root.name or k.startswith(sess.node.root.name + '.')]:
+        del registry[k]
+    rec['events'] = events
+    rec['result'] = result
+    rec['nsteps'] = len(steps)
+    return s, rec
+
+
+def shared_requests(ctx, rec):
+    return [{'p': PID, 'k': 'serial', 'acts': rec['events']}] + model_and_judge(ctx, rec)
+
+
+def run_shared(ctx, res, big):
+    from vlib.sched import RandomPolicy
+    ncases = ctx.budget(40, 500)
+    reported = set()
+    ndis = 0
+    for _ in range(ncases):
+        seed = ctx.rng.randrange(1 << 40)
+        case = gen_case(seed, big)
+        nthreads = ctx.rng.choice([2, 2, 3])
+        pseed = ctx.rng.randrange(1 << 30)
+        s, rec = shared_run(case, nthreads, RandomPolicy(random.Random(pseed), preempt_prob=0.5))
+        if rec['errors']:
+            res.count('shared.node-rejected-by-frappy')
+            continue
+        if rec['result']['aborted'] not in (None,):
+            raise RuntimeError(f'scheduler aborted ({rec["result"]["aborted"]}) on shared case {seed}')
+        if len(rec['steps']) != rec['nsteps']:
+            raise RuntimeError(f'shared case {seed}: {len(rec["steps"])} of {rec["nsteps"]} requests reached a handler')
+        schedule = [c for _, c, _ in s.choices]
+        serial, model, judge = ctx.driver.batch(shared_requests(ctx, rec))
+        for a in (serial, model, judge):
+            if 'driver_error' in a:
+                raise RuntimeError(f'driver error: {a["driver_error"]} (shared case {seed})')
+        res.evaluations += len(rec['steps'])
+        res.traces += len(rec['steps'])
+        res.count('shared.histories')
+        res.count('shared.requests', len(rec['steps']))
+        res.count('shared.threads.%d' % nthreads)
+        res.count('shared.switches', sum(1 for i in range(1, len(rec['events'])) if rec['events'][i][1] != rec['events'][i - 1][1]))
+        ref = {'shared': {'seed': seed, 'big': big, 'threads': nthreads}, 'schedule': schedule}
+        if not serial['ok']:
+            # the sequential model does not describe this run; nothing is judged on it
+            ndis += 1
+            if ctx.model_ok and ndis <= 3:
+                res.disagreements.append({'case': ref, 'model': 'requests are handled one at a time',
+                                          'impl': {'handler sections': rec['events'][:40]}})
+            continue
+        if any(st['obs']['calls'] for st in rec['steps']) and len({e[1] for e in rec['events']}) > 1:
+            res.nontriv(['shared', seed, nthreads, pseed])
+        if ctx.model_ok:
+            d = compare(model, rec)
+            if d is not None:
+                ndis += 1
+                if ndis <= 3:
+                    res.disagreements.append({'case': dict(ref, step=d['step']), 'model': {d['field']: d['model']},
+                                              'impl': {d['field']: d['impl'], 'req': d['req'], 'pyclass': d['pyclass']}})
+        if judge['bad'] is not None:
+            idx, why = judge['bad']
+            sig = sig_of(rec, idx, why) + ':several-connections'
+            if sig not in reported:
+                reported.add(sig)
+                st = rec['steps'][idx]
+                res.violations.append({
+                    'sig': sig,
+                    'what': f'(several connections) request {st["req"]} answered {st["obs"]["reply"]} with driver calls '
+                            f'{st["obs"]["calls"]}; the specification says: {why}',
+                    'case': ref, 'detail': {'step': idx, 'obs': {k: st['obs'][k] for k in ('reply', 'calls', 'emits')}}})
+
+
+# ----------------------------------------------------------------------------------------
 def gen_case(seed, big):
     rng = random.Random(seed)
     nodespec = gen_nodespec(rng, big)
@@ -1722,6 +1888,7 @@ def run(ctx):
                 'detail': {'step': idx, 'obs': {k: st['obs'][k] for k in ('reply', 'calls', 'emits')}}})
     run_concurrent(ctx, res, big)
     run_merging(ctx, res, big)
+    run_shared(ctx, res, big)
     res.count('cases', len(recs))
     if skipped:
         res.notes.append(f'{skipped} generated nodes were rejected by frappy itself at creation and skipped')
@@ -1730,6 +1897,26 @@ def run(ctx):
 
 def replay(ctx, rp):
     c = rp['case']
+    if 'shared' in c:
+        from vlib.sched import ReplayThenDefault
+        sc = c['shared']
+        s, rec = shared_run(gen_case(sc['seed'], sc['big']), sc['threads'], ReplayThenDefault(c['schedule']))
+        if rec['errors']:
+            print('node rejected:', rec['errors'])
+            return 2
+        serial, model, judge = ctx.driver.batch(shared_requests(ctx, rec))
+        print('handler sections:', rec['events'])
+        print('one request at a time:', serial)
+        for i, st in enumerate(rec['steps']):
+            mo = model['outs'][i] if 'outs' in model else None
+            print(f'[{i}] req   :', st['req'], ' driver script:', st['drv'])
+            print('     impl  :', st['obs']['reply'], 'calls', st['obs']['calls'], 'emits', st['obs']['emits'])
+            if mo:
+                print('     model :', mo['reply'], 'calls', mo['calls'], 'emits', mo['emits'])
+        print('judge :', judge)
+        d = compare(model, rec) if 'outs' in model else None
+        print('correspondence:', 'agree' if d is None else d)
+        return 0 if serial.get('ok') and judge.get('bad') is None and d is None else 1
     if 'merging' in c:
         from vlib.sched import ReplayThenDefault
         s, obs = merge_run(c['merging'], ReplayThenDefault(c['schedule']))
